@@ -66,7 +66,11 @@ type vttModel struct {
 	Cues    []vttCue
 }
 
-func vttDenote(m vttModel, withID bool) string {
+func vttDenote(m vttModel, withID bool) string { return vttDenoteX(m, withID, false) }
+
+// vttDenoteX with dropSpace leaves white-space characters out of the text (used for renderings that put white space
+// of their own between an inline timestamp and the tag that follows it)
+func vttDenoteX(m vttModel, withID, dropSpace bool) string {
 	var b strings.Builder
 	if m.TSMap != nil {
 		fmt.Fprintf(&b, "tsmap local=%d mpegts=%d\n", m.TSMap[0], m.TSMap[1])
@@ -96,6 +100,9 @@ func vttDenote(m vttModel, withID bool) string {
 				}
 				attr := strings.Join(ts, ">")
 				for _, ch := range s.Text {
+					if dropSpace && unicode.IsSpace(ch) {
+						continue
+					}
 					fmt.Fprintf(&b, "%q[%s@%d] ", ch, attr, s.TS)
 				}
 			}
@@ -233,6 +240,7 @@ type vttRender struct {
 	header              string
 	mapFirst            bool
 	tsBeforeTags        bool
+	tsSpace             bool // with tsBeforeTags: a space between the timestamp and the opening tags (text is then compared without white space)
 	closeVoice          bool
 	noteBeforeRegions   bool
 	escAll              bool
@@ -244,7 +252,7 @@ type vttRender struct {
 }
 
 func (o vttRender) String() string {
-	return fmt.Sprintf("eol=%q bom=%v id=%d short=%v tabs=%v header=%q mapfirst=%v tsBeforeTags=%v closeVoice=%v esc=%v", o.eol, o.bom, o.idKind, o.shortTime, o.tabs, o.header, o.mapFirst, o.tsBeforeTags, o.closeVoice, o.escAll)
+	return fmt.Sprintf("eol=%q bom=%v id=%d short=%v tabs=%v header=%q mapfirst=%v tsBeforeTags=%v tsSpace=%v closeVoice=%v esc=%v", o.eol, o.bom, o.idKind, o.shortTime, o.tabs, o.header, o.mapFirst, o.tsBeforeTags, o.tsSpace, o.closeVoice, o.escAll)
 }
 
 // idKindOf gives the identifier kind of cue k: 0 numeric, 1 absent, 2 non-numeric (idKind 3 = mixed per cue)
@@ -257,7 +265,7 @@ func (o vttRender) idKindOf(k int) int {
 
 func vttGenRender(r *fw.Rand) vttRender {
 	return vttRender{eol: fw.Pick(r, []string{"\n", "\r\n", "\r"}), bom: r.P(1, 3), idKind: fw.Pick(r, []int{0, 3, 3, 1, 2}), idMix: r.U64(), shortTime: r.Bool(), tabs: r.P(1, 3),
-		header: fw.Pick(r, []string{"", "", " - Some title", "\ttitle"}), mapFirst: r.Bool(), tsBeforeTags: r.Bool(), closeVoice: r.Bool(), noteBeforeRegions: r.P(1, 4), escAll: r.Bool(), regionsBeforeStyles: r.Bool(), blankInStyle: r.P(1, 4), voiceClass: r.P(1, 3), ownLine: r.P(1, 3)}
+		header: fw.Pick(r, []string{"", "", " - Some title", "\ttitle"}), mapFirst: r.Bool(), tsBeforeTags: r.Bool(), tsSpace: r.P(1, 4), closeVoice: r.Bool(), noteBeforeRegions: r.P(1, 4), escAll: r.Bool(), regionsBeforeStyles: r.Bool(), blankInStyle: r.P(1, 4), voiceClass: r.P(1, 3), ownLine: r.P(1, 3)}
 }
 
 func vttFmtTime(msv int64, short bool) string {
@@ -437,6 +445,9 @@ func vttRenderDoc(m vttModel, o vttRender, r *fw.Rand) []byte {
 				}
 				if o.tsBeforeTags {
 					b.WriteString(ts)
+					if o.tsSpace && ts != "" && len(seg.Tags) > common {
+						b.WriteString(" ")
+					}
 				}
 				for _, t := range seg.Tags[common:] {
 					b.WriteString("<" + t.String() + ">")
@@ -866,7 +877,8 @@ func c02Reader(c *fw.Ctx) fw.Outcome {
 			// a comment block is attached to the following cue, whatever stands in between
 			expModel.Cues[0].Comments = append([]string{"regions follow"}, model.Cues[0].Comments...)
 		}
-		exp, have := vttDenote(expModel, true), vttDenote(vttProject(got), true)
+		drop := o.tsSpace && o.tsBeforeTags
+		exp, have := vttDenoteX(expModel, true, drop), vttDenoteX(vttProject(got), true, drop)
 		if exp != have {
 			return fw.Bad(key, string(doc), "WebVTT reader, rendering {%s}: %s\ndocument: %q", o, firstDiff(exp, have), trunc(string(doc), 1200))
 		}
